@@ -21,6 +21,7 @@ PROP = dict(
         quick="static law: T{-50,-30,-10,-3,0} x R{1,2,5,50} x W{0,1,10,20} x fs{8k,192k} x both signs, levels every 0.5 dB in [-100,20] + every 0.01 dB "
               "within 0.1 dB of T-W/2, T, T+W/2, an exact 0.0 interleaved after every 5th level (out 0, gain 1); static.exact: {compressor R1, R5, limiter} x T x W x release{0,0.2}, every amplitude among the 200 doubles around db2mag(E), "
               "E in {T, T-W/2, T+W/2}, whose library level mag2db(a+eps) equals E bit-exactly, fed as [a,-a,a,a/2,a] (hit counts per E in path_histogram; none exists for T=-50); "
+              "static.together: ALL processors of the static box (every kind x T x R x W, fs 8k) alive at once, levels every 0.5 dB in [-100,20] with alternating signs looped outside and processors inside, one sample per call, ascending and descending: each output on its own documented law and bit-identical to the same configuration driven alone; "
               "gain.range: the same box x attack,release in {0,1e-3,0.2,4}^2 x 7 letters of 10^4 samples; "
               "smooth.step: T{-30,-10} x R{2,5,50} x W{0,10} x fs{8k,192k} x attack,release in {0,1e-3,0.01,0.2,4}^2 (no 4 s at 192 kHz), "
               "4 step phases each, plus attack = release = f/fs for fractional f = fs*t in {1.5,1.92,2.5,3.3,7.7,10.5} (gate.step likewise, hold{0,1e-3}); smooth.silence: T{-30,-10} x R{2,5,50}/limiter x W{0,10} x fs{8k,192k} x attack{0,0.01} x release{1e-3,0.01,0.2} x "
